@@ -15,7 +15,7 @@ import (
 )
 
 var c16Causes = []string{"disconnect", "abrupt", "keepalive", "protocol-error", "server-close"}
-var c16Conds = []string{"idle", "out-full", "in-full", "cross-blocked", "in-partial-large"}
+var c16Conds = []string{"idle", "out-full", "in-full", "cross-blocked", "in-partial-large", "own-out-full"}
 
 // c16Cell runs one teardown scenario in a bubble.
 //
@@ -105,6 +105,32 @@ func c16Cell(t *testing.T, cause, cond string, order int, will, clean bool, seed
 			P.PauseReading()
 			flood(P, "to/x", 16384+3*3010+8192)
 			flood(X, "to/p", 16384+3*3010+8192)
+		case "own-out-full":
+			// X has stopped reading and has sent requests until their answers filled its OWN outgoing ring:
+			// X's processor is parked waiting for room there, X's sender is blocked in its write to the
+			// socket. Nobody else is involved (P is an idle bystander).
+			if w.sink == nil {
+				return
+			}
+			X.PauseReading()
+			sent, stalled := 0, false
+			for round := 0; round < 200 && !stalled; round++ {
+				var burst []byte
+				for k := 0; k < 64; k++ {
+					sent++
+					burst = append(burst, rc.Encode(&rc.Packet{Type: rc.PUBLISH, Topic: []byte("to/nobody"), QoS: 1, ID: uint16(sent), Payload: []byte("p")})...)
+				}
+				X.Send(burst)
+				settle()
+				stalled = w.sink.count("proc.handled", "X") < sent
+			}
+			if !stalled {
+				out.Inconclusive("c16: X's processor did not stall on its own outgoing ring", params)
+				X.Close()
+				P.Close()
+				return
+			}
+			out.Count("c16.own_out_full_cells", 1)
 		case "in-partial-large":
 			// X has sent a small packet and, in the same write, one almost as large as its inbound ring:
 			// the ring holds a message that is not complete yet and has less than one read block free
@@ -282,7 +308,28 @@ func c16Cell(t *testing.T, cause, cond string, order int, will, clean bool, seed
 				if cond == "out-full" && c == P && (how == "disconnect" || how == "protocol-error") {
 					how = "abrupt" // P's processor is parked: it will not read another packet
 				}
+				if cond == "own-out-full" && c == X && (how == "disconnect" || how == "protocol-error") {
+					how = "abrupt" // X's processor is parked: it will not read another packet
+				}
 				endOne(c, how)
+				// keep-alive expiry is the broker's own doing: the connection must be down before anybody
+				// closes anything, unless it is P held up by X, which is still open and not reading
+				// (in "cross-blocked" X's processor is parked on P's ring as well, P being open and not reading)
+				if how == "keepalive" && w.sink != nil && cond != "cross-blocked" && (c == X || cond == "idle" || cond == "own-out-full" || cond == "in-partial-large") {
+					if n := w.sink.count("stop.done", c.name); n != 1 {
+						var where []string
+						for _, g := range libGoroutines() {
+							where = append(where, g.libTop()+":"+g.state)
+						}
+						sort.Strings(where)
+						fail("c16:keepalive-teardown-missing:"+strings.Join(uniq(where), "+"), fmt.Sprintf("connection %s (keep-alive 5 s, condition %s) has been silent for 12 s and has %d teardown-finished events; library goroutines: %v", c.name, cond, n, uniq(where)))
+						X.Close()
+						P.Close()
+						settle()
+						return
+					}
+					out.Count("c16.keepalive_teardowns_before_close", 1)
+				}
 			}
 		}
 		// everything that had stopped reading has been ended now
@@ -320,7 +367,7 @@ func c16Cell(t *testing.T, cause, cond string, order int, will, clean bool, seed
 				if order == 0 && (cond == "idle" || cond == "out-full" || cond == "in-full" || cond == "in-partial-large") {
 					wantX = 0 // X ended by DISCONNECT
 				}
-				if order == 1 && (cond == "idle" || cond == "in-partial-large") {
+				if order == 1 && (cond == "idle" || cond == "in-partial-large" || cond == "own-out-full") {
 					wantP = 0
 				}
 			}
